@@ -108,11 +108,20 @@ def _c03_sites(ctx, rep):
     panics.rule_panic_sites(ctx, rep, 'C03')
 
 
+def _c03_premises(ctx, rep):
+    """Premises the named (D6) instances of NumTracker::replace / number_advanced rely on: spans are enumerate
+    indices, closed after each number, emitted once and in stream order."""
+    from .rules import scanner, policy
+    scanner.rule_occ_construction(ctx, rep)
+    policy.rule_policy_table(ctx, rep)
+    scanner.rule_iterator_structure(ctx, rep)
+
+
 def _c12_sites(ctx, rep):
     panics.rule_panic_sites(ctx, rep, 'C12')
 
 
-reg(Prop('C03', 'other', [_c03_sites, panics.rule_nonempty_format, panics.rule_digit_args, progress.rule_loops, progress.rule_recursion],
+reg(Prop('C03', 'other', [_c03_sites, panics.rule_nonempty_format, panics.rule_digit_args, progress.rule_loops, progress.rule_recursion, _c03_premises],
          'Decides totality structurally: B1 the complete inventory of panic-capable sites in the library MIR (Assert terminators '
          '+ calls to partial callees such as unwrap, index, copy_from_slice, drain) with each site discharged by D1 a dominating '
          'guard (difference-constraint prover over branch facts), D3 constant arguments at every in-crate call site, D4 non-empty '
@@ -145,13 +154,18 @@ mtext('C12',
 from .rules import scanner  # noqa: E402
 
 
+def _policy_table(ctx, rep):
+    from .rules import policy
+    policy.rule_policy_table(ctx, rep)
+
+
 def _sep_mark(ctx, rep):
     from .rules import lexical
     lexical.rule_sep_mark(ctx, rep)
 
 reg(Prop('C15', 'other', [scanner.rule_scanner_structure, scanner.rule_iterator_structure],
          "Decides the driver structure of the token-stream contract on MIR: B14-SCANNER (FindNumbers::push) — \"-\" and whitespace tokens return before any state is touched; a not_a_number_part token can reach neither parser.push nor number_advanced, ends the number in progress and still updates `previous`; the word presented to the parser is the token's lowercase text or the constant \",\", the latter exactly under has_number() && nt_separated(previous); number_advanced is reachable only from Ok edges with the unmodified enumerate position; Err(Incomplete) neither advances, ends nor breaks; reject -> number_end -> retry with the token's own text; `previous` updated on every other path. B14-ITERATOR — lazy and batch drivers call the same push/finalize with the same arguments, the iterator tests has_matches() before reading and after every single token and returns pop() when true, finalizes on exhaustion, nothing is read by the constructor, the stream is read only by Iterator::next and track_numbers, both drain FIFO (pop_front / into over a push_back-only queue). Does NOT decide equality of the two result sequences for all streams nor the exact look-ahead bound (run-time quantities of the hold/release automaton)."))
-reg(Prop('C06', 'other', [scanner.rule_occ_construction, scanner.rule_decimal_entry, scanner.rule_reset_must, _sep_mark],
+reg(Prop('C06', 'other', [scanner.rule_occ_construction, scanner.rule_decimal_entry, scanner.rule_reset_must, _sep_mark, _policy_table, scanner.rule_iterator_structure],
          "Decides the construction discipline of occurrences: B13 — Occurence is built at exactly one site with start/end copied from match_start/match_end and text/value/is_ordinal from the parameters; FindNumbers::number_end reads parser.is_ordinal() before string_and_value() (which resets) and passes the two components of that one result; number_advanced sets match_end = pos + 1 on every path and match_start only for an empty span; number_end closes the span on every path; FindNumbers::new is private and both callers pass input.enumerate(). B7-DECIMAL-ENTRY — decimal mode is entered only for a rejected word, not already decimal, non-empty non-ordinal integer part, separator word, and returns Incomplete (decimal xor ordinal). B7-RESET-MUST — the decimal formatter runs iff is_dec && !dec_part.is_empty(), with (int_part, dec_part). From these checked facts spans are increasing, disjoint, in-stream and begin/end on accepted word tokens (hand argument: match_start <= pos < match_end, match_start := match_end after each number). Does NOT decide value = read(text) numerically (std float parsing) nor numeral shape of the formatted text (see C04/C05 template rules)."))
 reg(Prop('C10', 'other', [scanner.rule_reset_must, scanner.rule_scratch_hygiene, builder.rule_field_coverage],
          "Decides the absence of the carriers of cross-talk: B7-RESET-MUST (every path through string_and_value resets the parser after formatting), B6 (DigitString::reset covers all five fields; WordToDigitParser::reset covers all fields but lang), B7-SCRATCH-HYGIENE (typestate over the annotation passes: a scratch builder is Fresh whenever handed to apply, Dirty on a success edge until reset — the breach behind `du 109` vs `du 100 neuf`). Together with C09's B16 (a breaker forgets the last kind; on_hold is overwritten or taken on every path of number_end) nothing said several words earlier can reach a later number. Does NOT decide rewrite(A S B) = rewrite(A) S rewrite(B) itself, a relational property over pairs of runs."))
@@ -169,7 +183,7 @@ reg(Prop('C02', 'other', [textflow.rule_tokenizer_tiling, textflow.rule_replace_
 
 from .rules import policy  # noqa: E402
 
-reg(Prop('C09', 'other', [policy.rule_threshold, policy.rule_policy_table, policy.rule_breaker_condition],
+reg(Prop('C09', 'other', [policy.rule_threshold, policy.rule_policy_table, policy.rule_breaker_condition, textflow.rule_case_flow],
          "Decides: B8 — the threshold field is never written after construction and read exactly once, as the right operand of a strict `value < threshold` conjoined with (one digit || ordinal) (the constant-false branch is taken exactly when neither); the flag is only passed to NumTracker::number_end where it is branched on once: true can only hold a number, false can only emit it — hence recognition is independent of the threshold, rewriting is monotone in it and t <= 0 or NaN rewrites everything (values are parses of digit strings, >= 0). B16 — the loop-free hold/release function is evaluated on all 24 finite-domain cases (last kind x held x ordinal x small) by an abstract interpreter over its MIR and compared with the table the statement prescribes; sequence_breaker only forgets the last kind. B8-BREAKER — the 8-row truth table of outside_number's condition over its three atoms (no alphabetic char, not a lone period, linking word). Does NOT decide the iff-characterisation of `isolated` over whole token streams (iterating the checked per-step table over unbounded streams is model checking)."))
 
 mtext('C15',
@@ -222,13 +236,13 @@ mtext('C09',
 
 from .rules import lexical  # noqa: E402
 
-reg(Prop('C01', 'other', [lexical.rule_lex_card, lexical.rule_split_closure, lexical.rule_zero_arm, lexical.rule_guard_atoms],
+reg(Prop('C01', 'other', [lexical.rule_lex_card, lexical.rule_scale_contexts, lexical.rule_split_closure, lexical.rule_zero_arm, lexical.rule_guard_atoms],
          "Decides the lexical mechanism of the cardinal round-trip: A1 — every core cardinal form of the frozen reference lexicon (7 languages, ~330 forms incl. plural/inflected scale words, regional tens, national variants) selects, through partial evaluation of the language's lemmatizer source, an arm of the word table whose placing leaves are exactly the instruction its class prescribes for its value (put of its digits; de/nl tens put_digit_at(d,1); lexical hundreds put d00; hundred/thousand/million/milliard shift 2/3/6/9; it mille put 1000; fr vigesimal triples with the 60/80/4 predecessor tests), and apply(word) evaluated on an abstract fresh builder returns Ok with that one instruction; A3 — splitter patterns and arm keys agree (every pattern has an arm, every compounding word is a pattern, patterns non-empty and distinct) and every piece of every generated compound spelling (de/it/nl, n <= 999 quick, <= 9999 thorough) selects an arm; A6 zero arms; A7 scale-word guards (3,5)/(6,8) and the unit/tens separation guards. Does NOT decide that the composition of correct instructions yields decimal(n) for every n < 10^12 and context, nor 'never split in two': that depends on run-time buffer contents."))
 reg(Prop('C04', 'other', [lexical.rule_lex_ord, lexical.rule_split_closure, builder.rule_frozen_first, lexical.rule_sep_mark],
          "Decides the lexical mechanism of the ordinal round-trip: A2 — every core ordinal form and inflection of the reference lexicon (~750 forms) selects an arm whose placing leaves equal those of the cardinal of its rank; apply(form) evaluated on an abstract fresh builder (es 'segundo' after an ordinal) returns Ok, sets marker = Ordinal(<expected marker for that inflection>) — which evaluates the source of get_morph_marker and of the postlude on the form — and freezes the builder where the language does so; A3 closure for compound stems; B4 a frozen builder refuses every further word; A5 format_and_value renders digits followed by the marker. Does NOT decide the composition for every rank up to 10^6 (same reason as C01)."))
 reg(Prop('C05', 'other', [lexical.rule_dec_table, lexical.rule_sep_mark, scanner.rule_decimal_entry, scanner.rule_reset_must, builder.rule_field_coverage],
          "Decides: A4 (en/de decimal tables map each digit word to push(b\"d\"), zero synonyms share an arm, default NaN; fr/es/pt/it/nl apply_decimal forwards to apply verbatim), A5 (is_decimal_sep evaluates to true exactly on the separator word; the text template is {int}<mark>{dec} with mark '.' for English and ',' otherwise, filled with int.to_string(), dec.to_string() in that order; the value is the parse of {int}.{dec} of the same strings), B7-DECIMAL-ENTRY (decimal mode entered only for a rejected word, not already decimal, non-empty non-ordinal integer part, separator word; returns Incomplete — a separator with no number before it stays a word), B7-RESET-MUST (decimal formatter iff is_dec && !dec_part.is_empty(), otherwise the integer: nothing usable after the separator falls back to the integer; parser reset on every path), B6. Does NOT decide that arbitrary integer x fraction shapes round-trip (the fractional grammar of five languages goes through apply, i.e. C01's composition)."))
-reg(Prop('C08', 'other', [lexical.rule_guard_atoms, lexical.rule_conj, lexical.rule_zero_arm, builder.rule_write_guarded],
+reg(Prop('C08', 'other', [lexical.rule_guard_atoms, lexical.rule_block_contexts, lexical.rule_conj, lexical.rule_zero_arm, builder.rule_write_guarded],
          "Decides A7 GUARD-ATOMS: every arm of each sibling class carries the class guard and side assignments that keep adjacent numbers apart (en units peek(2) != 10; es additionally != 20; pt units/teens/tens !smaller_blocked, hundreds !only_multipliers with the flag definitions and three-way flag update; it units peek(2) != 10, un*/otto* is_free(2), ordinal stems is_empty; de/nl units is_free(2) + to_block = TENS, tens !blocked(TENS); fr un..six guarded by their own Excludable bit, dix sets UN_SIX, tens set UN; thousand is_range_free(3,5), million (6,8); success stores / failure clears the flags), A10 (the conjunction is only ever Err(Incomplete) under the class guard), A6 (zero arms), B5 (overlap refusal and zero-only-while-empty inside the builder). Does NOT decide the 10^4-pair outcome table per language nor the grouping of dictated digit strings (needs execution of the guards on concrete buffers)."))
 reg(Prop('C16', 'other', [lexical.rule_zero_arm, lexical.rule_len_zero_sensitive, builder.rule_write_guarded, builder.rule_field_coverage],
          "Decides: A6 (zero words select an unguarded put(b\"0\"), synonyms share the arm), B5 (a zero is accepted only on an empty buffer and counted; all-zero input refused otherwise), B6 (len/is_empty/to_string include the zero count, is_null does not; reset clears it), A9 (no guard or arm condition tests DigitString::len() for equality with a constant — the zero-sensitive single-digit test behind the rejected 'zero un milione'). Does NOT decide convert(zero^k spell(n)) = 0^k decimal(n) for all n (C01's composition)."))
